@@ -7,6 +7,7 @@ import (
 	secp256k1 "github.com/bytemare/secp256k1"
 	"github.com/bytemare/secp256k1/internal/verif/conc"
 	"github.com/bytemare/secp256k1/internal/verif/ev"
+	"github.com/bytemare/secp256k1/internal/verif/prelude"
 )
 
 // C16footprint enumerates the write footprint of every operation of the concurrency alphabet on shared state:
@@ -47,6 +48,10 @@ func C16footprint(r *ev.Report) {
 				globals = g
 			}
 		}
+	}
+
+	if g := secp256k1.VerifAllGlobals(); prelude.Baseline != "" && g != prelude.Baseline {
+		r.Violation("globals/differ-from-process-start", fmt.Sprintf("package-level state is not what it was before the first call into the library: %s -> %s", prelude.Baseline, g), Case{"op": "globals"})
 	}
 
 	r.Sample(Case{"op": "footprint", "i": "0", "name": conc.Ops[0].Name})
